@@ -9,9 +9,11 @@
                  -> bb=<rect> mnext=<x,y> dnext=<x,y> lh=<n>
     text.chain   <fontspec> <bl> <al> <tc> <bg> <ul> <st> <x> <y> <cps1> <cps2>
                  -> n1=<x,y> n2=<x,y> n12=<x,y>
-  The picture (`px`) is produced from the call list of `TextLayout.draw` (the `Font.drawString` model) only
-  when no pixel depends on a glyph bitmap (text colour == background colour, or neither set); the atlas
-  handed to the model is then irrelevant (all-off here).
+  The picture (`px`) is the pixel map `canonPix ∘ Call.writesDefault` of the call list of `TextLayout.draw`
+  (the `Font.drawString` model) - the `runDefault` map the C14 / C15 theorems speak about. It is printed when
+  the op determines it: for harness-built fonts always (their atlas is a fixed bit pattern the model
+  recomputes), for built-in fonts only when no pixel depends on a glyph bitmap (text colour == background
+  colour, or neither set; the atlas handed to the model is then irrelevant, all-off here).
 -/
 import EG.Driver.Util
 import EG.Model.TextLayout
@@ -20,19 +22,27 @@ open EG EG.Font EG.TextLayout
 
 private def tlFields (s : String) : List String := s.splitOn ":"
 
+/-- The fixed bit pattern of the harness-built atlas (m_text.rs `with_font`): bit `(x, y)` of the
+`16 cw x 6 ch` image is on iff `(7x + 3y + xy) mod 5 < 2`. -/
+private def tlCustomAtlas (iw ih : Nat) : Pt → Bool := fun p =>
+  decide (0 ≤ p.x ∧ 0 ≤ p.y ∧ p.x < (iw : Int) ∧ p.y < (ih : Int)) &&
+    decide ((p.x.toNat * 7 + p.y.toNat * 3 + p.x.toNat * p.y.toNat) % 5 < 2)
+
 /-- `b:<fid>` or `c:<cw>:<ch>:<sp>:<bl>:<ulOff>:<ulH>:<stOff>:<stH>` (harness-built font: mapping
-`"\0 ~"`, replacement 31, atlas of 16 x 6 cells). -/
-private def tlParseFont (s : String) : Option MonoFont :=
+`"\0 ~"`, replacement 31, atlas of 16 x 6 cells). Second component: the atlas bits when the op determines
+them (harness-built fonts), `none` for built-in fonts (their bits are C14's input, not part of a `text.*` op). -/
+private def tlParseFont (s : String) : Option (MonoFont × Option (Pt → Bool)) :=
   match tlFields s with
   | ["b", fid] =>
     match Generated.fontTable[parseNat fid]? with
-    | some r => some (fontOfRec r)
+    | some r => some (fontOfRec r, none)
     | none => none
   | ["c", cw, ch, sp, bl, uo, uh, so, sh] =>
     let m : StrMapping := ⟨[0, 32, 126], 31⟩
-    some { imgW := 16 * parseNat cw, imgH := 6 * parseNat ch, cw := parseNat cw, ch := parseNat ch,
-           spacing := parseNat sp, baseline := parseNat bl, ulOff := parseNat uo, ulH := parseNat uh,
-           stOff := parseNat so, stH := parseNat sh, index := m.index }
+    some ({ imgW := 16 * parseNat cw, imgH := 6 * parseNat ch, cw := parseNat cw, ch := parseNat ch,
+            spacing := parseNat sp, baseline := parseNat bl, ulOff := parseNat uo, ulH := parseNat uh,
+            stOff := parseNat so, stH := parseNat sh, index := m.index },
+          some (tlCustomAtlas (16 * parseNat cw) (6 * parseNat ch)))
   | _ => none
 
 private def tlOptColor (s : String) : Option Color := if s == "-" then none else some (parseNat s)
@@ -76,77 +86,44 @@ private def tlDetermined (st : Style) : Bool :=
   | none, none => true
   | _, _ => false
 
-/-! ### Rasterising fill calls into a canvas (array of `colour + 1`, 0 = untouched) -/
+/-! ### The picture a call list leaves: `canonPix ∘ writesDefault`, the pixel map the theorems are about
 
-private def tlCallArea : Call → Option Rect
-  | .fillContiguous a _ => if a.isZeroSized then none else some a
-  | .fillSolid a _ => if a.isZeroSized then none else some a
-  | _ => none
+The picture is the final pixel map of `runDefault bigBox calls` (EG.Model.Target: every call lowered the
+way the draw_iter-only target R1 receives it, last write wins), listed row-major by `canonPix` exactly as
+Driver/Font.lean does for `font.draw`. Every kind of call (`drawIter` included) takes part. -/
 
-/-- (min x, min y, max x + 1, max y + 1) over all non-empty call areas -/
-private def tlEnvelope (calls : List Call) : Option (Int × Int × Int × Int) :=
-  calls.foldl (fun acc c =>
-    match tlCallArea c with
-    | none => acc
-    | some a =>
-      let x1 := a.tl.x + (a.size.w : Int)
-      let y1 := a.tl.y + (a.size.h : Int)
-      match acc with
-      | none => some (a.tl.x, a.tl.y, x1, y1)
-      | some (ax, ay, bx, by') => some (min ax a.tl.x, min ay a.tl.y, max bx x1, max by' y1)) none
-
-private def tlPaintRow (cv : Array Nat) (base w : Nat) (col : Nat → Nat) (row : Nat) : Array Nat :=
-  (List.range w).foldl (fun cv i => cv.set! (base + i) (col (row * w + i) + 1)) cv
-
-private def tlPaint (x0 y0 : Int) (W : Nat) (cv : Array Nat) : Call → Array Nat
-  | .fillContiguous a cs =>
-    let arr := cs.toArray
-    let n := arr.size
-    (List.range a.size.h).foldl (fun cv r =>
-      (List.range a.size.w).foldl (fun cv i =>
-        let k := r * a.size.w + i
-        if k < n then cv.set! (((a.tl.y - y0).toNat + r) * W + (a.tl.x - x0).toNat + i) (arr[k]! + 1) else cv) cv) cv
-  | .fillSolid a c =>
-    (List.range a.size.h).foldl (fun cv r =>
-      tlPaintRow cv (((a.tl.y - y0).toNat + r) * W + (a.tl.x - x0).toNat) a.size.w (fun _ => c) r) cv
-  | _ => cv
+/-- the harness's unbounded recording box -/
+private def tlBigBox : Rect := ⟨⟨-1048576, -1048576⟩, ⟨2097152, 2097152⟩⟩
 
 private def tlP31 : UInt64 := 2147483647
 
-/-- `<n>:<hash>:<extent>` of the picture a list of fill calls leaves (same text as `fmt_px` of the harness). -/
+/-- `<n>:<hash>:<extent>` of the pixel map a call list leaves (same text as `fmt_px` of the harness). -/
 private def tlFmtPx (calls : List Call) : String :=
-  match tlEnvelope calls with
-  | none => "0:0:-"
-  | some (x0, y0, x1, y1) =>
-    let W := (x1 - x0).toNat
-    let H := (y1 - y0).toNat
-    let cv := calls.foldl (tlPaint x0 y0 W) (Array.replicate (W * H) 0)
-    -- scan row-major: count, hash, extent
-    let init : Nat × UInt64 × Option (Int × Int × Int × Int) := (0, 0, none)
-    let (cnt, h, ext) := (List.range H).foldl (fun acc r =>
-      (List.range W).foldl (fun (acc : Nat × UInt64 × Option (Int × Int × Int × Int)) i =>
-        let v := cv[r * W + i]!
-        if v == 0 then acc
-        else
-          let (cnt, h, ext) := acc
-          let x := x0 + (i : Int)
-          let y := y0 + (r : Int)
-          let t : Nat := ((y + 1048576).toNat * 2097152 + (x + 1048576).toNat) * 65536 + v
-          let h' := (h * 1000003 + (UInt64.ofNat t) % tlP31) % tlP31
-          let ext' := match ext with
-            | none => some (x, y, x, y)
-            | some (a, b, c, d) => some (min a x, min b y, max c x, max d y)
-          (cnt + 1, h', ext')) acc) init
-    let e := match ext with
-      | none => "-"
-      | some (a, b, c, d) => s!"{a},{b},{c - a + 1},{d - b + 1}"
-    s!"{cnt}:{h.toNat}:{e}"
+  let px := canonPix (calls.flatMap (Call.writesDefault tlBigBox))
+  let init : Nat × UInt64 × Option (Int × Int × Int × Int) := (0, 0, none)
+  let (cnt, h, ext) := px.foldl (fun (acc : Nat × UInt64 × Option (Int × Int × Int × Int)) pc =>
+    let (cnt, h, ext) := acc
+    let x := pc.1.x
+    let y := pc.1.y
+    let t : Nat := ((y + 1048576).toNat * 2097152 + (x + 1048576).toNat) * 65536 + (pc.2 + 1)
+    let h' := (h * 1000003 + (UInt64.ofNat t) % tlP31) % tlP31
+    let ext' := match ext with
+      | none => some (x, y, x, y)
+      | some (a, b, c, d) => some (min a x, min b y, max c x, max d y)
+    (cnt + 1, h', ext')) init
+  let e := match ext with
+    | none => "-"
+    | some (a, b, c, d) => s!"{a},{b},{c - a + 1},{d - b + 1}"
+  s!"{cnt}:{h.toNat}:{e}"
 
 private def tlNoAtlas : Pt → Bool := fun _ => false
 
-private def tlLayoutResult (f : MonoFont) (tx : Text) : String :=
-  let (calls, next) := draw f tlNoAtlas tx
-  let px := if tlDetermined tx.style then tlFmtPx calls else "-"
+/-- The picture is printed when the op determines it: always for harness-built fonts (atlas known), for
+built-in fonts only when no pixel depends on a glyph bitmap. -/
+private def tlLayoutResult (fa : MonoFont × Option (Pt → Bool)) (tx : Text) : String :=
+  let f := fa.1
+  let (calls, next) := draw f (fa.2.getD tlNoAtlas) tx
+  let px := if fa.2.isSome || tlDetermined tx.style then tlFmtPx calls else "-"
   s!"next={fmtPt next} bb={fmtRect (boundingBox f tx)} px={px}"
 
 def handleText (stream : String) (t : Toks) : Option String :=
@@ -155,24 +132,24 @@ def handleText (stream : String) (t : Toks) : Option String :=
     let (spec, t) := t.str
     match tlParseFont spec with
     | none => some "nofont"
-    | some f =>
+    | some fa =>
       let (tx, _) := tlParseLayout t
-      some (tlLayoutResult f tx)
+      some (tlLayoutResult fa tx)
   | "text.tr" =>
     let (spec, t) := t.str
     match tlParseFont spec with
     | none => some "nofont"
-    | some f =>
+    | some fa =>
       let (tx, t) := tlParseLayout t
       let (d, _) := t.pt
       let moved := tx.translate d
       let same := if tx.translateMut d = moved then "same" else "diff"
-      some s!"{tlLayoutResult f moved} mut={same}"
+      some s!"{tlLayoutResult fa moved} mut={same}"
   | "text.measure" =>
     let (spec, t) := t.str
     match tlParseFont spec with
     | none => some "nofont"
-    | some f =>
+    | some (f, _) =>
       let (bl, t) := t.nat
       let (st, t) := tlStyle t
       let (pos, t) := t.pt
@@ -184,7 +161,7 @@ def handleText (stream : String) (t : Toks) : Option String :=
     let (spec, t) := t.str
     match tlParseFont spec with
     | none => some "nofont"
-    | some f =>
+    | some (f, _) =>
       let (bl, t) := t.nat
       let (al, t) := t.nat
       let (st, t) := tlStyle t
